@@ -1,6 +1,6 @@
 (* C10 - compression is transparent and honours the requested mode.  Statements only (partial). *)
 From Coq Require Import List ZArith NArith.
-From DOS Require Import Generated Base Store StoreProofs StoreLemmas Mono Compress Programs PackProofs RepackProofs AddPackProofs ImportProofs C10Proofs.
+From DOS Require Import Generated Base Store StoreProofs StoreLemmas Mono Compress Programs PackProofs RepackProofs AddPackProofs ImportProofs C10Proofs Totals.
 Import ListNotations.
 
 (* should_compress as a function of the mode: the AUTO verdict is an oracle (heuristic), the other three are fixed *)
@@ -90,3 +90,28 @@ Print Assumptions C10_pack_writes_the_requested_form.
 Print Assumptions C10_direct_and_import_write_the_requested_form.
 Print Assumptions C10_repack_writes_the_requested_form.
 Print Assumptions C10_repack_uniform_mode.
+
+(* ---- the totals: get_total_size / count_objects as functions of the on-disk state (Totals.totals_of) ----
+   on EVERY state satisfying the invariant: SUM(size) is the sum of the lengths of the contents the entries decode to; entries stored
+   uncompressed account for exactly their size; and the stored lengths never add up to more than the pack files hold (any number of
+   packs and entries, zero-length entries included) *)
+Section C10_totals.
+Variable H : bytes -> key.
+Variable inflate : bytes -> option bytes.
+Theorem C10_total_size_is_the_sum_of_content_lengths : forall w, Inv H inflate w ->
+  t_packed (totals_of w) = list_sum (map (fun r => match read_row inflate w r with Some c => length c | None => 0 end) (db w)).
+Proof. exact (packed_size_is_content_length H inflate). Qed.
+Theorem C10_plain_entries_occupy_their_size : forall w, Inv H inflate w -> Forall (fun r => rcomp r = false) (db w) ->
+  t_packed_disk (totals_of w) = t_packed (totals_of w).
+Proof. exact (plain_packed_on_disk H inflate). Qed.
+Theorem C10_packed_on_disk_le_packfiles : forall w, Inv H inflate w -> NoDup (map fst (packs w)) ->
+  t_packed_disk (totals_of w) <= t_packfiles (totals_of w).
+Proof. exact (packed_on_disk_le_packfiles H inflate). Qed.
+End C10_totals.
+Print Assumptions C10_total_size_is_the_sum_of_content_lengths.
+Print Assumptions C10_plain_entries_occupy_their_size.
+Print Assumptions C10_packed_on_disk_le_packfiles.
+Example C10_totals_ex : totals_of {| loose := [(7%N, mkFile [1;2;3]%N [])]; packs := [(0%Z, mkFile [9;9;9;9;9]%N [])]; sandbox := [];
+                                     db := [mkRow 1%N 0%Z 0 2 true 10; mkRow 2%N 0%Z 2 3 false 3] |}
+  = mkTotals 13 5 5 3 2 1 1.
+Proof. vm_compute. reflexivity. Qed.
